@@ -771,7 +771,15 @@ func (e *e6Interp) step(in ssa.Instruction) {
 	case *ssa.IndexAddr:
 		e.env[x] = &Sym{Op: "indexaddr", Args: []*Sym{e.val(x.X), e.val(x.Index)}, Type: x.Type()}
 	case *ssa.Index:
-		e.env[x] = &Sym{Op: "index", Args: []*Sym{e.val(x.X), e.val(x.Index)}, Type: x.Type()}
+		xs, is := e.val(x.X), e.val(x.Index)
+		if xs.isConst() && is.isConst() && xs.Const != nil && is.Const != nil && xs.Const.Kind() == constant.String {
+			s := constant.StringVal(xs.Const)
+			if i, ok := constant.Int64Val(is.Const); ok && i >= 0 && int(i) < len(s) {
+				e.env[x] = symConst(constant.MakeInt64(int64(s[i])), x.Type())
+				return
+			}
+		}
+		e.env[x] = &Sym{Op: "index", Args: []*Sym{xs, is}, Type: x.Type()}
 	case *ssa.UnOp:
 		a := e.val(x.X)
 		switch x.Op {
